@@ -81,3 +81,13 @@ reg('C12', 'static analysis: dominance of every store that can reach the outputs
     'writer ownership of the outputs, provenance of the downgrade state (same result, constant successful=False), must-facts on when spec validation runs',
     'For every output spec and emission sequence: nothing is written into the outputs before the verdict was examined, nobody else mutates them, listeners are told exactly '
     'when stored, the downgrade keeps the result and is entered by transition_to. Which values the spec accepts is not decided.', NOTE)
+
+reg('C14', 'static analysis: provenance of what the persisters store and hand out (deep copy / serialisation on save, fresh object on load), sibling agreement '
+    'on one (pid, tag) key function with argument order, handler pairing for idempotent delete',
+    'For every history: isolation of a snapshot from the live process AND from a process continued from a loaded bundle is a provenance fact of save/load; save, '
+    'load and delete address the same key; deletes tolerate a missing key and touch one key/pid. Observational equivalence of the two persisters is not decided.', NOTE)
+reg('C15', 'static analysis: provenance of every value stored into the destination namespace (copy.copy/deepcopy of the source port; fresh container for a shallow '
+    'copy), segment-exactness of every rule/name comparison (equality, membership or startswith of a separator-terminated prefix), dominance of the mutual-exclusion '
+    'test over all mutations, forwarding of rules and options',
+    'For every port tree and rule set: a prefix comparison that is not separator-terminated, a port stored uncopied, a shared container or dropped/unchecked options '
+    'are found from the code. The selected set beyond segment-exactness is not decided.', NOTE)
